@@ -82,7 +82,7 @@ theorem buildStage0_same (c : Cfg) (mi : List (Nat × HostInfo)) (p : PSide) (hh
     Same p (p.buildStage0 c mi hh now).1 ∧ SameRec hh (p.buildStage0 c mi hh now).2.1 := by
   unfold PSide.buildStage0
   dsimp only
-  generalize (if (decide (c.defaultVer < 2) && is6 hh.vpnAddr) = true then 2 else c.defaultVer) = v
+  generalize stage0Version c hh = v
   by_cases hv : (!c.hasVer v) = true
   · rw [if_pos hv]; exact ⟨Same.refl p, ⟨rfl, rfl, rfl, rfl, rfl⟩⟩
   · rw [if_neg hv]
